@@ -22,7 +22,7 @@ CHECKS = {
                      "implementation-shaped machine equals the closed-form true position recomputed from the raw text (tabs, splices, trigraphs). "
                      "Every exported behaviour is replayed into the real Lexer; any difference is validated by TLC (LexerTrace.tla), which decides "
                      "the position law on the observed tokens; the repository's sample files are validated the same way.",
-                note="bounded alphabets/lengths; TruePos is the specification's independent scanner"),
+                note="bounded alphabets/lengths; TruePos is the specification's independent scanner; the highlight positions of lexical diagnostics predicted by Lexer.tla are strict when the tokens are the model's"),
     "C10": dict(ref="§4.10", tech="TLC model checking of Lexer.tla (TileInv/SpellInv/BadLexInv, dictionary injectivity over extracted tables) + replay + TLC trace validation",
                 text="TLC checks that the machine's token spans tile the input, each token carries exactly the normalised text of its span, "
                      "valueless tokens are recoverable from their type (dictionaries extracted from the tree, injectivity ASSUMEd and re-checked), "
@@ -51,7 +51,7 @@ CHECKS = {
                 text="The model states that a file's verdict is a function of its class and that shared state is restored; RuleOrder.tla checks on the extracted tables that rule order "
                      "cannot depend on the directory listing. All sequences over nine concrete files are run as one command line and as one library session; each file's findings "
                      "must equal its solo findings; the rules directory listing is permuted in subprocesses.",
-                note="nine concrete files incl. a 95-deep nesting and three kinds of fatal error; sequences up to length 2 (quick) / 3 (thorough)"),
+                note="ten concrete files incl. a 95-deep nesting and three kinds of fatal error; sequences up to length 2 (quick) / 3 (thorough); probe sessions: ~280 (quick) corpus and hand-written probe files alone vs after every concrete file and after each other in one process"),
     "C08": dict(ref="§4.8", tech="TLC check of the comparator laws on a transcription of Error.__lt__ (Report.tla) validated point-wise against the code + decoded CLI reports in three formats",
                 text="TLC checks on all pairs/triples of a small diagnostic domain that the transcribed comparator is a strict total order and lists diagnostics in ascending displayed "
                      "position; the Python comparator is compared point-wise with the transcription on the whole domain. Reports of corpus and stress files are decoded from "
@@ -61,11 +61,11 @@ CHECKS = {
                 text="TLC explores the work-list algorithm of main() over every directory tree up to the bound (look-alike suffixes, names with spaces and dots, a directory named "
                      "sub.c, nesting, git-ignored files) and every argument list, with and without --use-gitignore, and checks that the analysed files are exactly the intended "
                      "selection. A covering sample is materialised (git init + .gitignore where needed) and run through the real CLI.",
-                note="trees up to 3 nodes, argument lists up to 1 (quick) / 2 (thorough); hidden names and symlinks outside the domain"),
+                note="trees up to 3 nodes, argument lists up to 1 + every overlapping pair of arguments (quick) / 2 (thorough); hidden names and symlinks outside the domain"),
     "C16": dict(ref="§4.16", tech="TLC enumeration of every option combination (Driver.tla, OptionsArePresentation) + CLI replay of each, findings compared with the default-option findings",
                 text="TLC enumerates format x colours x -o x debug x -R word (incl. near misses of CheckDefine) x file/--cfile/--filename for each file class; every combination is "
                      "executed through the real CLI; decoded verdict and diagnostics must equal those under default options (minus the #define-value codes for -R CheckDefine).",
-                note="the model side is near-tautological (it is the statement); the weight is on the exhaustive replay"),
+                note="the model side is near-tautological (it is the statement); the weight is on the exhaustive replay; -R words include every rule name extracted from the registry, applied to a file with eleven different diagnostics"),
     "C01": dict(ref="§4.1", tech="TLC exploration of Norm.tla (exhaustive over body structures + simulation of the full conforming grammar; IndentIsDepth, DepthZeroAtTop, WidthOK) + replay of every derivation into the real pipeline and CLI",
                 text="Norm.tla generates Norm-conforming .c and .h translation units line by line together with the scope chain the engine must keep; TLC explores every body structure "
                      "of a small bound exhaustively and the full grammar in simulation, checking that the tabs written equal the engine's indentation, widths stay <= 80 and counters "
@@ -98,7 +98,7 @@ CHECKS = {
                 text="The stdheader template is a sequence of abstract lines whose widths TLC checks to be exactly 80 for every shape; the intended recogniser accepts it and rejects every "
                      "structural mutation. Every (shape, mutation, body) is rendered with several spellings of the fields and run: INVALID_HEADER must appear 0 times for an unmutated header "
                      "(also when a comment or code follows it directly) and exactly once for every mutation.",
-                note="shapes: 5 covering (quick) / all combinations of the length classes (thorough)"),
+                note="template ported from stdheader.vim (left text clipped and padded to 45 columns + 25-column art rows; reproduces the repository's sample header byte for byte); shapes: 10 covering incl. clipped By / Created / file-name fields (quick) / all combinations of the length classes (thorough)"),
     "C14": dict(ref="§4.14", tech="TLC enumeration of Guard.tla (Guard(name) over character sequences, 15 guard cases per name, .c twins) + replay under that file name",
                 text="Guard(name) is defined in the specification; TLC enumerates every header base name of a small alphabet (double dots, trailing underscores) and every guard case and checks the "
                      "symbols are well formed and the mutated ones differ. Each case is run under that file name: the demanded HEADER_PROT_* code must sit on the demanded directive, a correct "
@@ -108,7 +108,7 @@ CHECKS = {
                 text="In the specification the inside of a comment, string or character constant is a slot of a given width: no action reads it. Every derivation of the conforming and "
                      "single-violation corpora is rendered twice with the text inside drawn from two different filler classes (operators, brackets, semicolons, keywords, preprocessor "
                      "words, the other quote, digits, ...; adversarial endings) and identical everything else; the two runs must give identical diagnostics.",
-                note="corpora from TLC simulation (seeded); the 42 header and #include strings are excluded as the property says"),
+                note="corpora from TLC simulation (seeded); 13 filler classes incl. digraphs and trigraphs; the violation variants that add quoted text are compared under every class; the 42 header and #include strings are excluded as the property says"),
     "C18": dict(ref="§4.18", tech="TLC-generated corpora (identifiers are class/width/identity slots) + Guard/Header42 products + paired replay under three renaming styles; TLC check keyword table vs spellings",
                 text="Identifiers are slots in Norm.tla: no action reads a spelling. Every derivation is rendered twice with different identifier spellings of the same class and length "
                      "(independent names, names built around other names of the file, keyword-prefixed names); diagnostics must be identical in code, line and column. TLC checks on the "
